@@ -21,6 +21,15 @@ RULE = (
 
 
 # relations whose columns are all non-key (d, d2): DISTINCT still sees every column
+TWIN_OPS = (
+    ("join", ("E",), None, False),
+    ("join", ("Etwin",), None, False),
+    ("chain", ("E",)),
+    ("chain", ("Etwin",)),
+    ("proj", ("a", "b")),
+    ("sel", ("gt", ("ref", "a"), ("lit", 1))),
+    ("dedup",),
+)
 NONKEY_OPS = (
     ("proj", ("d",)),
     ("proj", ("d2",)),
@@ -62,6 +71,7 @@ class C06(Check):
                 SubSpace("sql/full/d2", sw, spaces.SQL_ROOTS_ALL, spaces.SQL_FULL, 2),
                 SubSpace("sql/reduced/d3", sw, spaces.SQL_ROOTS_ALL, spaces.SQL_REDUCED, 3),
                 SubSpace("sql/nonkey/d3", sw, ("K", "K2"), NONKEY_OPS, 3),
+                SubSpace("sql/twin/d3", sw, ("X", "Y"), TWIN_OPS, 3),
             ]
         return [
             SubSpace("it/full/d3", iw, spaces.IT_ROOTS_ALL, spaces.IT_FULL, 3),
@@ -69,6 +79,7 @@ class C06(Check):
             SubSpace("sql/full/d3", sw, spaces.SQL_ROOTS_ALL, spaces.SQL_FULL, 3),
             SubSpace("sql/reduced/d4", sw, ("X", "Xloose", "Xunb", "Eloose"), spaces.SQL_REDUCED, 4),
             SubSpace("sql/nonkey/d4", sw, ("K", "K2"), NONKEY_OPS, 4),
+            SubSpace("sql/twin/d4", sw, ("X", "Y"), TWIN_OPS, 4),
         ]
 
     def judge(self, tr):
@@ -114,11 +125,12 @@ class C06(Check):
                 return True
         if self.deep:
             scen = tr.sub.world.scenario()
+            by_payload = {id(p): n for n, p in tr.ctx.leaf_payloads.items()}
             for node in walk.walk(rel):
                 if node is rel or isinstance(node, LeafRelation):
                     continue
                 try:
-                    v = treeref.eval_tree(node, scen)
+                    v = treeref.eval_tree(node, scen, leaf_key=lambda leaf: by_payload.get(id(leaf.payload), leaf.name))
                 except RefOOC:
                     tr.count("subnode_ooc")
                     continue
